@@ -11,6 +11,18 @@ CHECKS = {
     note="Trusted: rustc's LLVM-IR -> machine code lowering; the integer-polynomial encoding of LLVM integer semantics (validated on every run by concrete-mode replay of vectors against the natively compiled kernels); product atoms are over-approximated (sound for unsat). Bounds: limb ranges per backend listed in evidence; no bound on values. Fermat/Euler facts behind invert/sqrt are trusted mathematics (M1).",
     technique="SMT (QF_LIA after polynomial linearisation and definitional elimination) over rustc-emitted LLVM IR, own symbolic interpreter llsym"),
 }
+CHECKS["C02"] = dict(
+    category="model_checking",
+    text="Bounded symbolic execution of the compiled scalar kernels (Scalar52 and Scalar29: from_bytes, from_bytes_wide, as_bytes, add, sub, mul, square, montgomery_mul/square, as/from_montgomery) from the release LLVM IR rebuilt on each run: all limbs / all 2^256 and 2^512 byte strings are symbolic; the solver shows out == spec (mod l), out < l and the limb bounds for every input. Compositional: sub and montgomery_mul are established once against contracts, which are then used at their call sites with the precondition as an obligation. Constants L, LFACTOR, R, RR enter as the immediates the compiler folded into the IR, so a wrong limb breaks the identity.",
+    design_ref="DESIGN.md 6 C02",
+    note="Trusted: as C01; product-bound lemma a*b <= (2^256-1)^2 (monotonicity of multiplication) is an explicit assumption of the Montgomery harnesses. Scalar-level glue (Scalar::reduce / from_canonical_bytes / invert chains, batch_invert, integer conversions) is covered by the layer-F/Kani harnesses listed in evidence when present; l prime and Fermat are trusted mathematics.",
+    technique="SMT (QF_LIA after polynomial linearisation, zero-digit lemmas and Gaussian elimination) over rustc-emitted LLVM IR (llsym), assume/guarantee contracts")
+CHECKS["C11"] = dict(
+    category="model_checking",
+    text="Every field and scalar kernel harness is executed on the IR of the checked build (overflow-checks=on, debug-assertions=on): each branch into a panic block (arithmetic overflow check, debug_assert!, bounds check) under the kernel's documented limb precondition is a proof obligation closed by interval arithmetic or the SMT solver for ALL limb vectors - including the all-limbs-at-the-bound corner - and the functional goals are re-established on that IR, so checked and release builds compute the same bytes.",
+    design_ref="DESIGN.md 6 C11",
+    note="Part (1) 'inside kernels' and part (4) 'same bytes' of DESIGN 6 C11 are decided here for serial/fiat u64/u32 kernels; headroom along call paths of the group formulas (part 2) is decided by the layer-F bound propagation when listed in evidence; vector (AVX2/IFMA) kernels as listed. Trusted: LLVM IR semantics encoding, validated by shadow/concrete execution on every run.",
+    technique="SMT / interval arithmetic over the overflow-checked LLVM IR (llsym)")
 NOT_YET = {}
 for i in range(2, 18):
     NOT_YET["C%02d" % i] = "check under construction in this round (see DESIGN.md 6 for the planned solver-based check); not claimed until it runs green"
